@@ -48,7 +48,7 @@ def _seed_one(args):
     try:
         repo = os.path.join(tmp, "repo")
         subprocess.check_call(["rsync", "-a", "--exclude", "target", "--exclude", ".git", check.REPO + "/", repo + "/"])
-        p = subprocess.run(["patch", "-p1", "-s", "-i", patch], cwd=repo, capture_output=True, text=True)
+        p = subprocess.run(["patch", "-p1", "-s", "-f", "-i", patch], cwd=repo, capture_output=True, text=True)
         if p.returncode != 0: return seed, "skipped", "patch no longer applies to the current tree"
         env = dict(os.environ, VERIF_REPO=repo, VERIF_EVIDENCE_DIR=os.path.join(tmp, "ev"), VERIF_TIER="quick")
         os.makedirs(env["VERIF_EVIDENCE_DIR"], exist_ok=True)
@@ -64,7 +64,7 @@ def _seed_one(args):
 def seed_selftest(cid):
     r = RuleResult("T.seeds", "self-test: each recorded property-breaking variant of the current tree (seeded corpus) is reported by this property's rules", floor=0)
     jobs = []
-    for m in sorted(glob.glob(os.path.join(ROOT, "seeded", "*", "meta.json"))):
+    for m in sorted(glob.glob(os.path.join(ROOT, "seeded", "*", "meta.json")) + glob.glob(os.path.join(ROOT, "selftest", "*", "meta.json"))):
         j = json.load(open(m))
         if cid in j.get("caught_by", []): jobs.append((cid, os.path.basename(os.path.dirname(m)), os.path.join(os.path.dirname(m), "patch.diff")))
     res = {"caught": [], "missed": [], "skipped": [], "error": []}
